@@ -1,6 +1,18 @@
 (* Props/C10.v — C10: the JSON parser (json/parse.go).
    Statements only; each is closed by [exact] of a lemma proved in coq/theories/Json/. *)
-From Verif Require Import Common.Base Common.Lx Json.Model Json.Lex Json.Spec Json.Proofs Json.Trace.
+From Verif Require Import Common.Base Common.Lx Json.Model Json.Lex Json.Spec Json.Grammar Json.Proofs Json.Trace
+  Json.Accept.
+
+(* MAIN THEOREM.  Every document of the RFC 8259 grammar (Json/Grammar.v: whitespace explicit at the six
+   structural positions; all escape and number forms) is parsed to the end of the input without a parse
+   error (Err() is io.EOF), and re-joining the units with ':' after keys and ',' between units as State()
+   indicates yields the document without insignificant whitespace.  No bound on size or nesting. *)
+Theorem json_accepts_valid :
+  forall d, value d ->
+    exists units final, drive (S (length d)) (json_init d) = Done units final /\
+                        err_kind final = 1 /\ rejoin units = strip_ws d.
+Proof. exact json_accepts_valid_proof. Qed.
+Print Assumptions json_accepts_valid.
 
 (* No call of Next or State() panics, for every byte string and any number of calls (also after errors):
    the trace of n calls exists, and State() is defined (the state stack is never empty) after each call. *)
